@@ -268,7 +268,13 @@ def detect_oracle(ctx, rng, eng):
         inp = dict(map_shape=[Hm, Wm], downsample=ds, rot=rot, rotated_page_size=[Hr, Wr], aligned_columns=aligned, ridges=ridges)
         ctx.evaluations += 1
         ctx.count('detect:rot=%d' % rot)
+        import random as _rnd
+        rseed = rng.randrange(2 ** 31)
         try:
+            # parse() breaks ties with np.random and order_lines_vertical jitters with random: the same seeds for this call and
+            # for the rotated-page call below, so that both make the same random choices
+            np.random.seed(rseed)
+            _rnd.seed(rseed)
             with contextlib.redirect_stdout(io.StringIO()):
                 p_list, b_list, h_list, t_list = eng.detect(image, rot=rot)
         except Exception as e:
@@ -309,6 +315,8 @@ def detect_oracle(ctx, rng, eng):
         # rotated page itself gives, mapped back through the exact inverse of np.rot90 (the decoding tolerances cancel out)
         if rot > 0:
             try:
+                np.random.seed(rseed)
+                _rnd.seed(rseed)
                 with contextlib.redirect_stdout(io.StringIO()):
                     p0, b0, h0, t0 = eng.detect(np.rot90(image, k=rot), rot=0)
             except Exception as e:
